@@ -4,10 +4,14 @@
 From Coq Require Import List ZArith Bool Lia.
 Import ListNotations.
 From Goat Require Import Base.Explore Model.Client Check.ClientC.
+From Goat Require Check.ServerC Check.SrvSpec.   (* server-side cases (builder sv), by qualified names only *)
 Open Scope Z_scope.
 
 Inductive c14case :=
 | C14Step (c : ccase)
+(* a lock-step conversation on the real SERVER connection (rig harness/sv_c05_test.go): when every started handler has
+   returned nothing is held for them (Check/SrvSpec.v, reason 8); with_model = false: request deadlines, outside Model/Server.v *)
+| C14Srv (with_model : bool) (c : ServerC.svcase)
 | C14Long (samples : list (Z * Z * Z * Z * Z)).   (* client registry, stream loops, RPCs in flight, streams in flight, server stream registry (-1 = not read) *)
 
 Definition act_list (c : ccase) : list act := match c with CClient a _ => a | CClientWedged a _ _ => a end.
@@ -56,12 +60,14 @@ Definition spec_c14 (c : c14case) : list nat :=
   match c with
   | C14Step cc => dedup Nat.eqb (c14_walk (act_list cc) (obs_list cc) [] [])
   | C14Long samples => dedup Nat.eqb (flat_map long_bad samples)
+  | C14Srv _ _ => []
   end.
 
 Definition check_c14 (c : c14case) : list nat :=
   match c with
   | C14Step cc => (if agrees cc then [] else [1%nat]) ++ spec_c14 c
   | C14Long _ => spec_c14 c
+  | C14Srv m sc => SrvSpec.check_c14srv m sc
   end.
 
 Fixpoint find_bad_from (i : nat) (cs : list c14case) : list (nat * list nat) :=
